@@ -252,6 +252,11 @@ func Main(id, tier string) {
 	for k := range total.Outcomes {
 		c.Distinct(k)
 	}
+	if total.Diverged > 0 {
+		c.Exhaustive = false
+		c.SetExtra("executions_diverged_from_their_replayed_prefix", total.Diverged)
+		c.Note("%d executions did not reproduce the prefix they were replaying: the code under test carries state from one execution to the next (package-level or pooled state) or uses nondeterminism the scheduler does not own; those schedules were set aside, not judged", total.Diverged)
+	}
 	if total.Capped {
 		c.Exhaustive = false
 		c.Note("an internal deadline stopped the enumeration of some scenario; largest deviation bound completed for every scenario: %d", minDone)
@@ -318,6 +323,7 @@ func Main(id, tier string) {
 	}
 	embed := os.Getenv("VERIF_EMBED") != ""
 	var confirmed []explore.Found
+	unconfirmed := 0
 	// confirm violations: the same schedule must fail the same way twice
 	for _, f := range total.Found {
 		sc := Build(f.Spec)
@@ -325,6 +331,12 @@ func Main(id, tier string) {
 		_, o1 := explore.RunOnce(sc, f.Choices)
 		_, o2 := explore.RunOnce(sc, f.Choices)
 		if o1.Violation != f.Violation || o2.Violation != f.Violation {
+			if total.Diverged > 0 || o1.Diverged || o2.Diverged {
+				// executions are not reproducible on this tree (see the note above): a violation that does
+				// not fail the same way every time is not reported
+				unconfirmed++
+				continue
+			}
 			fmt.Fprintf(os.Stderr, "HARNESS-ERROR: violation %q did not reproduce on replay (got %q, %q): uncaptured nondeterminism\n", f.Violation, o1.Violation, o2.Violation)
 			os.Exit(2)
 		}
@@ -339,6 +351,9 @@ func Main(id, tier string) {
 		if !embed {
 			c.Violation(f.Violation, f.Msg, "mc/schedule", f)
 		}
+	}
+	if unconfirmed > 0 {
+		c.SetExtra("violations_not_reproducible_dropped", unconfirmed)
 	}
 	if embed {
 		total.Found = nil
